@@ -13,6 +13,8 @@
 -/
 import Mhd.Proofs.ReqLine
 import Mhd.Proofs.ReqField
+import Mhd.Proofs.ReqStable
+import Mhd.Proofs.ReqRoundtrip
 
 namespace Mhd.C02
 open Mhd.Req
@@ -86,5 +88,111 @@ theorem field_any_two_segmentations (lvl : Int) (fieldStart : Nat) (s : HS) (hs 
     let sc := hsScanner (FLFlags.ofLevel lvl) fieldStart
     sc.feedAll (sc.run s) c₁ = sc.feedAll (sc.run s) c₂ :=
   Scanner.feedAll_eq_of_flatten_eq (HSP.hsLaws _ fieldStart) s hs c₁ c₂ hc
+
+
+/-! ## (4) stability of the strings shown to the application -/
+
+/-- second half of the start invariant: in the state in which header parsing starts, no
+    element is a field line and all strings handed out so far (the query arguments, inside
+    the request target) end before the end of the version string -/
+theorem field_inv2_start (buf : Bytes) (rb rbSize method version : Nat) (elems : List Elem)
+    (h3 : ∀ el ∈ elems, el.kind ≠ Mhd.Gen.Http.kindHeader)
+    (h4 : ∀ el ∈ elems, ∀ sl ∈ HSP.Elem.slices el, sl.region = 0 →
+      sl.off + sl.len ≤ version + Mhd.Gen.Discipline.httpVerLen) :
+    HSP.Inv2 { buf := buf, rb := rb, rbSize := rbSize, elems := elems, method := method, version := version } := by
+  have hL : lastElemEnd ({ buf := buf, rb := rb, rbSize := rbSize, elems := elems, method := method, version := version } : HS)
+      = version + Mhd.Gen.Discipline.httpVerLen := by
+    unfold lastElemEnd
+    dsimp only
+    split
+    next e he =>
+      have hk := h3 e (List.mem_of_getLast? he)
+      rw [if_neg (by simpa using hk)]
+    next => rfl
+  exact ⟨fun _ => rfl, fun _ _ => rfl, fun h => absurd rfl h, by rw [hL]; exact Nat.le_refl _,
+    by rw [hL]; exact h4⟩
+
+/-- **Strings shown to the application stay valid and unchanged** (this is what the
+    shift-back defect F1 violated).  Header parsing starts in any state satisfying the
+    invariants (`field_inv_start`, `field_inv2_start`: true after every request line), the
+    header section arrives in *any* segmentation, parsing finishes with header set `h`.
+    Then, at every level:
+    * every string of every element (query arguments, field names, field values — each with
+      its terminating NUL) and the HTTP version string lie strictly below `read_buffer`,
+      also after the header tail has been re-used: whatever is received later (body,
+      pipelined requests) is stored at or above `read_buffer` and cannot overwrite them;
+    * the elements present at the start are the first elements of the final list (nothing
+      dropped or reordered), and their bytes are unchanged. -/
+theorem strings_stable (lvl : Int) (fieldStart : Nat) (s : HS) (hs : HSP.Inv s) (hs2 : HSP.Inv2 s)
+    (chunks : List Bytes) (h : Headers)
+    (hr : let sc := hsScanner (FLFlags.ofLevel lvl) fieldStart
+          sc.feedAll (sc.run s) chunks = .done (.ok h)) :
+    HSP.Below h s.version ∧ (∃ t, h.elems = s.elems ++ t) ∧
+      (∀ i, i < s.rb → i < h.rb → h.buf[i]? = s.buf[i]?) := by
+  dsimp only at hr
+  rw [Scanner.feedAll_flatten (HSP.hsLaws _ fieldStart) chunks s hs] at hr
+  have := HSP.run_stable (FLFlags.ofLevel lvl) fieldStart (hsExtend s (Scanner.flatten chunks))
+    (hs.ext _) (hs2.ext _) h hr
+  refine ⟨this.1, this.2.1, fun i h1 h2 => ?_⟩
+  rw [this.2.2 i h1 h2]
+  exact Array.getElem?_append_left (by have := hs.hp; omega)
+
+/-! ## (3) round trip -/
+
+/-- **Field lines: the application sees exactly the fields the client sent.**  For every
+    level, any list of well-formed fields (`HSP.FieldWF`: non-empty name of token-like
+    characters, value without CR / LF / NUL and without leading or trailing whitespace —
+    interior whitespace, any other byte incl. ≥ 0x80 allowed), rendered canonically as
+    `name ": " value CRLF … CRLF` at the read position of any state satisfying the
+    invariants, arriving in **any segmentation**: header parsing finishes, the element list
+    grows by exactly one element per field — in order, with multiplicity, nothing added,
+    dropped, merged or truncated — whose name and value read back from the final buffer
+    are the bytes sent; `header_size` counts exactly the bytes of the head; the unconsumed
+    bytes (body / next request) follow at `read_buffer`. -/
+theorem fields_roundtrip (lvl : Int) (fieldStart : Nat) (fields : List HSP.Field) (s : HS) (chunks : List Bytes)
+    (hs : HSP.Inv s) (hs2 : HSP.Inv2 s) (hfresh : HSP.Fresh s) (hwf : ∀ f ∈ fields, HSP.FieldWF f)
+    (hbuf : HSP.BufIs (s.buf ++ Scanner.flatten chunks) s.rb (HSP.renderFields fields ++ [cCR, cLF])) :
+    let sc := hsScanner (FLFlags.ofLevel lvl) fieldStart
+    ∃ h : Headers, sc.feedAll (sc.run s) chunks = .done (.ok h) ∧ HSP.Below h s.version ∧
+      (∃ els, h.elems = s.elems ++ els ∧
+        els.map (HSP.elemView h.buf) = fields.map (fun f => (Mhd.Gen.Http.kindHeader, f.1, some f.2))) ∧
+      h.headerSize = s.rb + (HSP.renderFields fields).length + 2 - s.method := by
+  intro sc
+  have hx := HSP.fields_roundtrip (FLFlags.ofLevel lvl) fieldStart fields (hsExtend s (Scanner.flatten chunks))
+    ⟨hs.ext _, hs2.ext _⟩ ⟨hfresh.p, hfresh.f1, hfresh.f2, hfresh.f3, hfresh.f4⟩ hwf hbuf
+  obtain ⟨h, h1, h2, h3, h4, _⟩ := hx
+  exact ⟨h, by rw [Scanner.feedAll_flatten (HSP.hsLaws _ fieldStart) chunks s hs]; exact h1, h2, h3, h4⟩
+
+/-! ## non-vacuity: the hypotheses are satisfiable by concrete, non-trivial values -/
+
+def exBytes (s : String) : Bytes := (strBytes s).toArray
+
+/-- a request line arriving in three pieces at level 0, with a query argument -/
+example :
+    (match (rlScanner (RLFlags.ofLevel 0)).feedAll ((rlScanner (RLFlags.ofLevel 0)).run (RL.init #[] 0))
+        [exBytes "GET /a?", exBytes "x=1 HT", exBytes "TP/1.1\r\nHost: h\r\n"] with
+     | .done (.ok r) => some (r.method, r.tgt, r.tgtLen, r.qmark, r.version, r.rb)
+     | _ => none) = some (0, 4, 6, some 6, 11, 21) := by decide
+
+/-- the state after the request line `GET /?a HTTP/1.0`: it satisfies both invariants, the
+    header section `A: b` + empty line arrives byte-wise split, the read buffer is small
+    (30 < 1500) so the header tail is re-used: `read_buffer` moves back from 26 to 23 -/
+def exHS : HS :=
+  { buf := exBytes "GET\x00/\x00a\x00HTTP/1.0\x00\n", rb := 18, rbSize := 30,
+    elems := [⟨8, ⟨0, 6, 1⟩, none⟩], method := 0, version := 8 }
+
+example : HSP.Inv exHS :=
+  field_inv_start _ 18 30 0 8 _ (by decide) (by decide) (by intro el hm; simp at hm; subst hm; decide)
+
+example : HSP.Inv2 exHS :=
+  field_inv2_start _ 18 30 0 8 _ (by intro el hm; simp at hm; subst hm; decide)
+    (by intro el hm sl hsl _; simp at hm; subst hm; simp [HSP.Elem.slices] at hsl; subst hsl; decide)
+
+example :
+    (match (hsScanner (FLFlags.ofLevel 0) 18).feedAll ((hsScanner (FLFlags.ofLevel 0) 18).run exHS)
+        [exBytes "A: ", exBytes "b\r", exBytes "\n\r\nXY"] with
+     | .done (.ok h) => some (h.rb, h.shifted, h.elems.length, h.headerSize)
+     | _ => none) = some (23, 3, 2, 26) := by decide
+
 
 end Mhd.C02
